@@ -81,6 +81,8 @@ def run_one(dst, h):
             r.update(status="undecided", reason="vacuity guard: unsatisfied cover property")
         else:
             r.update(status="ok", reason="")
+    elif "CBMC appears to have run out of memory" in out or ("CBMC failed" in out and not re.search(r"Failed Checks:", out)):
+        r.update(status="undecided", environmental=True, reason="CBMC ran out of memory / crashed (environmental; not counted)")
     elif "VERIFICATION:- FAILED" in out:
         failed = re.findall(r"Failed Checks: (.*)", out)
         unwind_only = failed and all("unwinding assertion" in f for f in failed)
